@@ -187,3 +187,89 @@ def r14_attribute_needs_element(res, facts):
     if n == 0:
         raise AnalysisBroken('ElemAttribute::startElement adds nothing (addResultAttribute / pushProcessCurrentAttribute(true) expected)')
     return r
+
+
+# ----------------------------------------------------------------------------------------------- C03-R14: what endElement pops, startElement has pushed
+def _minmax(cfg, name):
+    """(fewest, most) calls of the member `name` on a path from the entry to the normal exit (back edges ignored: none of these functions pushes in a loop)"""
+    import sys
+    cnt = {}
+    for n in cfg.nodes:
+        cnt[n.id] = sum(1 for c in calls(n.ast) if c.get('k') == 'MCall' and c.get('n') == name) if n.ast is not None else 0
+    memo, onstack = {}, set()
+    sys.setrecursionlimit(max(10000, sys.getrecursionlimit()))
+
+    def go(n):
+        if n is cfg.exit:
+            return (0, 0)
+        if n.id in memo:
+            return memo[n.id]
+        if n.id in onstack:
+            return None
+        onstack.add(n.id)
+        best = None
+        for s in n.succ:
+            x = go(s)
+            if x is not None:
+                best = x if best is None else (min(best[0], x[0]), max(best[1], x[1]))
+        onstack.discard(n.id)
+        memo[n.id] = None if best is None else (best[0] + cnt[n.id], best[1] + cnt[n.id])
+        return memo[n.id]
+    return go(cfg.entry)
+
+
+def r14_balance(res, facts):
+    """The iterative engine calls startElement, runs the children, calls endElement - for every instruction instance, on every path on which startElement returns.  Where
+    one of the two touches a stack of the execution context unconditionally (the same number of pushes / pops on every path to its normal exit), the other must do the
+    same number on every path: an endElement that always pops after a startElement that skipped the push on one path pops an entry of the enclosing instruction or an
+    empty stack (undefined behaviour in the release build, where the assertion is compiled out)."""
+    r = res.rule('C03-R14', 'instruction by instruction and stack by stack: when endElement pops a stack of the execution context the same number of times on every path, '
+                 'startElement pushes it that many times on every path to a normal return, and the other way round (paths that throw are exempt); pairs where both sides are '
+                 'conditional (coupled by a flag: xsl:attribute, xsl:for-each ...) are not decided here', floor=9)
+    tab = collections.defaultdict(dict)
+    for a in facts.all_asts(r'/XSLT/Elem[A-Za-z]*\.(cpp|hpp)'):
+        if a.get('body') is None:
+            continue
+        fn = facts.F.get(a['usr'])
+        if not fn:
+            continue
+        cls = (fn.get('cls') or '').split('::')[-1]
+        name = fn['name'].split('::')[-1]
+        if name not in ('startElement', 'endElement'):
+            continue
+        stacks = set()
+        for c in calls(a['body']):
+            m = re.match(r'^(push|pop)([A-Z][A-Za-z]*)$', c.get('n') or '')
+            if c['k'] == 'MCall' and m and 'ExecutionContext' in (c.get('cls') or ''):
+                stacks.add(m.group(2))
+        if not stacks:
+            continue
+        cfg = CFG(a)
+        for s in stacks:
+            tab[(cls, s)][name] = (_minmax(cfg, 'push' + s), _minmax(cfg, 'pop' + s), a)
+    n = 0
+    for (cls, stack), d in sorted(tab.items()):
+        if 'startElement' not in d or 'endElement' not in d:
+            continue
+        spush, spop, sa = d['startElement']
+        epush, epop, ea = d['endElement']
+        if spush is None or epop is None:
+            continue
+        net_start = (spush[0] - (spop or (0, 0))[1], spush[1] - (spop or (0, 0))[0])
+        net_end = (epop[0] - (epush or (0, 0))[1], epop[1] - (epush or (0, 0))[0])
+        site = '%s: %s' % (cls, stack)
+        s_fixed, e_fixed = net_start[0] == net_start[1], net_end[0] == net_end[1]
+        if not s_fixed and not e_fixed:
+            continue
+        n += 1
+        if s_fixed and e_fixed and net_start[0] == net_end[0]:
+            r.ok(site, 'startElement pushes %d, endElement pops %d, on every path' % (net_start[0], net_end[0]))
+        elif e_fixed:
+            r.violation(site, '%s::endElement pops %s %d time(s) on every path, %s::startElement pushes it between %d and %d times depending on the path: on the path with fewer pushes '
+                        'endElement pops an entry that belongs to an enclosing instruction, or an empty stack' % (cls, stack, net_end[0], cls, net_start[0], net_start[1]), common.file_line(sa))
+        else:
+            r.violation(site, '%s::startElement pushes %s %d time(s) on every path, %s::endElement pops it between %d and %d times depending on the path: entries pile up on the stack' %
+                        (cls, stack, net_start[0], cls, net_end[0], net_end[1]), common.file_line(ea))
+    if n < 9:
+        raise AnalysisBroken('C03-R14: only %d (instruction, stack) pairs with an unconditional side found (11 confirmed by hand)' % n)
+    return r
